@@ -1,16 +1,17 @@
 (* Corr/C14Spec.v — correspondence cases and property-strength oracle for C14 (no generated code). *)
-From NV Require Import Common.Py Spec.TimeSpec Model.Calendar.
+From Coq Require Import List.
+From NV Require Import Common.Py Spec.TimeSpec Model.Calendar Model.Text.
 Open Scope Z_scope.
 
 Definition fields9 := (Z * Z * Z * Z * Z * Z * Z * Z * Z)%type.   (* y mo d h mi s us fs ys *)
 
 Inductive c14case :=
 | TdFields (t days secs us fs ys : Z)
-| TdStr (t d h m s f : Z) (format_ok : bool)     (* fields parsed from str(TimeDelta); f = fraction scaled to 18 digits *)
+| TdStr (t d h m s f : Z) (text : list Z)        (* str(TimeDelta) as character codes, and the fields the harness read in it; f = fraction scaled to 18 digits *)
 | DtFields (t : Z) (f : fields9) (tz_utc : bool)
 | DtFromFields (f : fields9) (out : res Z)        (* DateTime(y, mo, ..., tzinfo=utc).ticks *)
 | DtRepr (t : Z) (out : res Z)                    (* eval(repr(DateTime.from_ticks(t))).ticks *)
-| DtStr (t : Z) (f : fields9) (format_ok : bool)  (* fields parsed from str(DateTime) *)
+| DtStr (t : Z) (f : fields9) (text : list Z)    (* str(DateTime) as character codes, and the fields the harness read in it *)
 | Ordinal (ord y m d : Z).                        (* datetime.date.fromordinal(ord) — ties Model/Calendar.v to Python *)
 
 Definition YS' : Z := 1000000000000000000000000.
@@ -38,14 +39,17 @@ Definition nearest_tick_ok (n r : Z) : bool := 2 * Z.abs (r * YS' - n * T64) <=?
 Definition c14_spec_ok (c : c14case) : bool :=
   match c with
   | TdFields t days secs us fs ys => td_fields_ok t days secs us fs ys
-  | TdStr t d h m s f fmt =>
-      fmt && rng 0 h 24 && rng 0 m 60 && rng 0 s 60 && rng 0 f AS'
+  | TdStr t d h m s f text =>
+      (* the text is, character for character, the rendering of in-range parts ... *)
+      list_eqb text (render_td d h m s f) && rng 0 h 24 && rng 0 m 60 && rng 0 s 60 && rng 0 f AS'
       (* within 1e-18 s of the exact value *)
       && (Z.abs (((((d * 24 + h) * 60 + m) * 60 + s) * AS' + f) * T64 - AS' * t) <=? T64)
   | DtFields t f tz => tz && dt_fields_ok t f
   | DtFromFields f out => match out with Ok r => nearest_tick_ok (fields_ys f) r | Raise _ => false end
   | DtRepr t out => match out with Ok r => r =? t | Raise _ => false end
-  | DtStr t f fmt => fmt && dt_fields_ok t f
+  | DtStr t f text =>
+      let '(y, mo, d, h, mi, s, us, fs, ys) := f in
+      list_eqb text (render_dt y mo d h mi s us fs ys) && dt_fields_ok t f
   | Ordinal ord y m d =>
       let '(y', m', d') := civil_of_days (ord - ORD_SHIFT) in (y =? y') && (m =? m') && (d =? d')
   end.
